@@ -1685,6 +1685,31 @@ impl Context {
                 .push((Arc::new(Value::None), Instruction::PushStateOffset(offset)));
         }
     }
+    /// Evaluate one arm of a branching construct (`if`, `match`).
+    ///
+    /// The arms of a branch own consecutive regions of the state storage, in arm
+    /// order: `offset_before` is the total state size of the arms before this one.
+    /// Whatever the arm pushes onto the state cursor it pops again at its end, so the
+    /// cursor is back at the position of the branch whichever arm ran.
+    fn eval_branch_arm<T>(
+        &mut self,
+        offset_before: u64,
+        eval: impl FnOnce(&mut Self) -> (T, Vec<StateSkeleton>),
+    ) -> (T, Vec<StateSkeleton>) {
+        let base_sum = self.get_ctxdata().push_sum;
+        self.get_ctxdata().next_state_offset = (offset_before > 0).then_some(offset_before);
+        let (res, states) = eval(self);
+        self.get_ctxdata().next_state_offset = None;
+        let own_pushes = self.get_ctxdata().push_sum - base_sum;
+        if own_pushes > 0 {
+            self.get_current_basicblock().0.push((
+                Arc::new(Value::None),
+                Instruction::PopStateOffset(own_pushes),
+            ));
+        }
+        self.get_ctxdata().push_sum = base_sum;
+        (res, states)
+    }
     fn emit_fncall(
         &mut self,
         idx: u64,
@@ -2961,41 +2986,33 @@ impl Context {
             }
             Expr::If(cond, then, else_) => {
                 let (c, _, state_c) = self.eval_expr(*cond);
+                // Both arms have to start from the same cursor position.
+                self.consume_and_insert_pushoffset();
                 let cond_bidx = self.get_ctxdata().current_bb;
 
                 // This is just a placeholder. At this point, the locations of
                 // the block are not determined yet. These 0s will be
                 // overwritten later.
                 let _ = self.push_inst(Instruction::JmpIf(c, 0, 0, 0));
-                //todo: state offset for branches
                 //insert then block
                 let then_bidx = cond_bidx + 1;
-                let (t, _, state_t) = self.eval_block(Some(*then));
+                let (t, state_t) = self.eval_branch_arm(0, |ctx| {
+                    let (t, _, state_t) = ctx.eval_block(Some(*then));
+                    (t, state_t)
+                });
+                let then_size = state_t.iter().map(|s| s.total_size()).sum::<u64>();
                 //jmp to ret is inserted in bytecodegen
                 //insert else block
                 let else_bidx = self.get_ctxdata().current_bb + 1;
-                let (e, _, state_e) = self.eval_block(*else_);
-                let then_size = state_t.iter().map(|s| s.total_size()).sum::<u64>();
+                let (e, state_e) = self.eval_branch_arm(then_size, |ctx| {
+                    let (e, _, state_e) = ctx.eval_block(*else_);
+                    (e, state_e)
+                });
                 let else_size = state_e.iter().map(|s| s.total_size()).sum::<u64>();
-                let branch_state = match then_size.cmp(&else_size) {
-                    std::cmp::Ordering::Greater => {
-                        let elseb = self.get_current_fn().body.get_mut(else_bidx).unwrap();
-                        elseb.0.push((
-                            Arc::new(Value::None),
-                            Instruction::PushStateOffset(then_size - else_size),
-                        ));
-                        state_t.clone()
-                    }
-                    std::cmp::Ordering::Less => {
-                        let thenb = self.get_current_fn().body.get_mut(then_bidx).unwrap();
-                        thenb.0.push((
-                            Arc::new(Value::None),
-                            Instruction::PushStateOffset(else_size - then_size),
-                        ));
-                        state_e.clone()
-                    }
-                    std::cmp::Ordering::Equal => state_t.clone(),
-                };
+                // The state of the else arm follows the state of the then arm.
+                let branch_size = then_size + else_size;
+                self.get_ctxdata().next_state_offset = (branch_size > 0).then_some(branch_size);
+                let branch_state = [state_t, state_e].concat();
                 //insert return block
                 self.add_new_basicblock();
                 let res = self.push_inst(Instruction::Phi(t, e));
@@ -3427,6 +3444,11 @@ impl Context {
             .iter()
             .find(|arm| matches!(&arm.pattern, MatchPattern::Wildcard));
 
+        // All arms have to start from the same cursor position.
+        self.consume_and_insert_pushoffset();
+        // total state size of the arms generated so far
+        let mut arm_offset = 0u64;
+
         // Record current block where Switch will be placed
         let switch_bidx = self.get_ctxdata().current_bb;
 
@@ -3445,11 +3467,6 @@ impl Context {
                 self.add_new_basicblock();
                 let block_idx = self.get_ctxdata().current_bb as u64;
 
-                // Reset state offset at the start of each arm
-                // This ensures each arm starts with a clean state context
-                self.get_ctxdata().next_state_offset = None;
-                self.get_ctxdata().push_sum = 0;
-
                 // Extract value from the tagged union if there's a binding pattern and payload type
                 if let MatchPattern::Constructor(_, Some(inner_pattern)) = &arm.pattern
                     && let Some(vt) = *variant_ty
@@ -3465,7 +3482,12 @@ impl Context {
                     self.bind_pattern(inner_pattern, bound_val, vt);
                 }
 
-                let (result_val, _, arm_states) = self.eval_expr(arm.body);
+                // Each arm owns its own region of the state storage, after the previous arms'.
+                let (result_val, arm_states) = self.eval_branch_arm(arm_offset, |ctx| {
+                    let (result_val, _, arm_states) = ctx.eval_expr(arm.body);
+                    (result_val, arm_states)
+                });
+                arm_offset += arm_states.iter().map(|s| s.total_size()).sum::<u64>();
                 ((*tag, block_idx), result_val, arm_states)
             })
             .fold(
@@ -3487,11 +3509,11 @@ impl Context {
             self.add_new_basicblock();
             let block_idx = self.get_ctxdata().current_bb as u64;
 
-            // Reset state offset for default arm
-            self.get_ctxdata().next_state_offset = None;
-            self.get_ctxdata().push_sum = 0;
-
-            let (result_val, _, arm_states) = self.eval_expr(arm.body);
+            let (result_val, arm_states) = self.eval_branch_arm(arm_offset, |ctx| {
+                let (result_val, _, arm_states) = ctx.eval_expr(arm.body);
+                (result_val, arm_states)
+            });
+            arm_offset += arm_states.iter().map(|s| s.total_size()).sum::<u64>();
             all_arm_states.push(arm_states);
             case_results.push(result_val);
             Some(block_idx)
@@ -3500,47 +3522,8 @@ impl Context {
             None
         };
 
-        // Calculate maximum state size across all arms
-        let arm_state_sizes: Vec<u64> = all_arm_states
-            .iter()
-            .map(|states| states.iter().map(|s| s.total_size()).sum::<u64>())
-            .collect();
-        let max_state_size = arm_state_sizes.iter().copied().max().unwrap_or(0);
-
-        // Insert PushStateOffset for arms with smaller state sizes
-        // This ensures all arms have the same state offset when merging
-        for (i, ((_tag, block_idx), state_size)) in
-            case_blocks.iter().zip(arm_state_sizes.iter()).enumerate()
-        {
-            if *state_size < max_state_size {
-                let offset = max_state_size - state_size;
-                let block = self
-                    .get_current_fn()
-                    .body
-                    .get_mut(*block_idx as usize)
-                    .unwrap();
-                // Insert PushStateOffset at the end of the block (before result)
-                block
-                    .0
-                    .push((Arc::new(Value::None), Instruction::PushStateOffset(offset)));
-            }
-        }
-
-        // Handle default block state adjustment if it exists
-        if let Some(default_idx) = default_block_idx {
-            let default_state_size = arm_state_sizes.last().copied().unwrap_or(0);
-            if default_state_size < max_state_size {
-                let offset = max_state_size - default_state_size;
-                let block = self
-                    .get_current_fn()
-                    .body
-                    .get_mut(default_idx as usize)
-                    .unwrap();
-                block
-                    .0
-                    .push((Arc::new(Value::None), Instruction::PushStateOffset(offset)));
-            }
-        }
+        // The next stateful operation after the match starts behind all arms.
+        self.get_ctxdata().next_state_offset = (arm_offset > 0).then_some(arm_offset);
 
         // Generate merge block with PhiSwitch
         self.add_new_basicblock();
@@ -3571,9 +3554,7 @@ impl Context {
             _ => panic!("expected Switch instruction"),
         }
 
-        // Use the largest arm's state as the result state
-        // This represents the maximum state size across all branches
-        // But we need to collect all states from all arms for the function's state signature
+        // The arms' states are laid out one after another, in arm order.
         for arm_states in all_arm_states {
             states.extend(arm_states);
         }
@@ -3637,6 +3618,11 @@ impl Context {
             .iter()
             .find(|arm| matches!(&arm.pattern, MatchPattern::Wildcard));
 
+        // All arms have to start from the same cursor position.
+        self.consume_and_insert_pushoffset();
+        // total state size of the arms generated so far
+        let mut arm_offset = 0u64;
+
         // Record current block where Switch will be placed
         let switch_bidx = self.get_ctxdata().current_bb;
 
@@ -3654,7 +3640,12 @@ impl Context {
             .map(|(arm, lit_val)| {
                 self.add_new_basicblock();
                 let block_idx = self.get_ctxdata().current_bb as u64;
-                let (result_val, _, arm_states) = self.eval_expr(arm.body);
+                // Each arm owns its own region of the state storage, after the previous arms'.
+                let (result_val, arm_states) = self.eval_branch_arm(arm_offset, |ctx| {
+                    let (result_val, _, arm_states) = ctx.eval_expr(arm.body);
+                    (result_val, arm_states)
+                });
+                arm_offset += arm_states.iter().map(|s| s.total_size()).sum::<u64>();
                 ((*lit_val, block_idx), result_val, arm_states)
             })
             .fold(
@@ -3675,7 +3666,11 @@ impl Context {
             // Wildcard pattern - just evaluate the body
             self.add_new_basicblock();
             let block_idx = self.get_ctxdata().current_bb as u64;
-            let (result_val, _, arm_states) = self.eval_expr(arm.body);
+            let (result_val, arm_states) = self.eval_branch_arm(arm_offset, |ctx| {
+                let (result_val, _, arm_states) = ctx.eval_expr(arm.body);
+                (result_val, arm_states)
+            });
+            arm_offset += arm_states.iter().map(|s| s.total_size()).sum::<u64>();
             all_states.extend(arm_states);
             case_results.push(result_val);
             Some(block_idx)
@@ -3713,6 +3708,8 @@ impl Context {
             _ => panic!("expected Switch instruction"),
         }
 
+        // The next stateful operation after the match starts behind all arms.
+        self.get_ctxdata().next_state_offset = (arm_offset > 0).then_some(arm_offset);
         states.extend(all_states);
         (res, result_ty, states)
     }
